@@ -104,10 +104,17 @@ pub fn bind_next(
                         return new_loc_err(Error::OutOfListBounds{index: n});
                     }
 
-                    let lhs_val = &mut lock_deref!(items)[n as usize];
+                    // The operation is applied to a copy of the element and
+                    // the result is stored afterwards, so that the list isn't
+                    // locked while the operation runs (the right-hand side
+                    // may be, or contain, this very list, as in
+                    // `xs[0] += xs`).
+                    let mut new_val = lock_deref!(items)[n as usize].clone();
 
-                    binary_operation_assign(lhs_val, rhs, op)
+                    binary_operation_assign(&mut new_val, rhs, op)
                         .context(BinOpAssignListIndexFailed)?;
+
+                    lock_deref!(items)[n as usize] = new_val;
 
                     Ok(())
                 },
